@@ -223,6 +223,20 @@ AddRule ==
               [world EXCEPT !.netpols[i] =
                   WithRules(@, dir, Append(NPRules(@, dir), [peers |-> peers, ports |-> ports]))])
 
+(* a further rule that names a CIDR the policy already uses, with another except list (the address space is then cut at the *)
+(* boundaries of both occurrences); the edge is an AddRule edge: nothing may disappear                                        *)
+RuleIPPeers(rs) == UNION {{rs[r].peers[k] : k \in {k \in DOMAIN rs[r].peers : rs[r].peers[k].kind = "ip"}} : r \in DOMAIN rs}
+UsedIPPeers(np) == RuleIPPeers(NPRules(np, "Ingress")) \cup RuleIPPeers(NPRules(np, "Egress"))
+AddCidrAgain ==
+  \E i \in Pick(DOMAIN world.netpols), dir \in Pick({"Ingress", "Egress"}) :
+    /\ Len(world.netpols) > 0
+    /\ Len(NPRules(world.netpols[i], dir)) < MaxRules
+    /\ \E q \in Pick({q \in IPPeerCat : \E p \in UsedIPPeers(world.netpols[i]) : q.cidr = p.cidr /\ q.excepts # p.excepts}) :
+         \E ports \in Pick({<<>>, <<NumPort(TRUE, "TCP", 2)>>, <<RngPort(FALSE, "TCP", 1, 5)>>, <<ProtoOnly(FALSE, "UDP")>>}) :
+           Step("AddRule", <<i, dir>>,
+                [world EXCEPT !.netpols[i] =
+                    WithRules(@, dir, Append(NPRules(@, dir), [peers |-> <<q>>, ports |-> ports]))])
+
 (* (policy, direction) pairs that have a last rule satisfying P *)
 Dirs == {"Ingress", "Egress"}
 LastRule(i, dir) == LET rs == NPRules(world.netpols[i], dir) IN rs[Len(rs)]
@@ -389,7 +403,7 @@ ExplicitPolicyTypes ==
 
 AddRuleAgain == AddRule      \* listed twice: TLC's simulator picks uniformly among the disjuncts of Next
 AddRuleOnceMore == AddRule
-NPNext == AddRuleAgain \/ AddRuleOnceMore \/ AddWorkload \/ AddTwinWorkload \/ NameLikePlaceholder \/ RemoveWorkload \/ ReExpressWorkload \/ RelabelNamespace \/ AddPolicy \/ AddRule \/ AddPeer \/ AddPort
+NPNext == AddRuleAgain \/ AddRuleOnceMore \/ AddCidrAgain \/ AddWorkload \/ AddTwinWorkload \/ NameLikePlaceholder \/ RemoveWorkload \/ ReExpressWorkload \/ RelabelNamespace \/ AddPolicy \/ AddRule \/ AddPeer \/ AddPort
           \/ SetPolicyTypes \/ RemovePolicy \/ RespellPodSelAsIn \/ RespellPeerSelAsIn \/ SplitRange \/ SplitCidr
           \/ SplitPolicy \/ ExplicitPolicyTypes \/ MoveCidr \/ MoveCidrAgain \/ RemoveRule
 
